@@ -402,6 +402,14 @@ def family_programs(rnd, n):
               ("[ch].iter().each(|c| { launch M().run(c); });", "7"), ("launch plain.call(ch);", "1")]
     for i, (src, exp) in enumerate(LAUNCH):
         out.append((f"launch:{i}", LPRE + src + "\nprint(<- ch);\nprint(\"after\");", {"stdout": [exp, "after"], "status": "ok"}))
+    # ---- launch of something that runs at once (a native, a class without initializer, a class with a native
+    # initializer): repeated inside a function whose stack is then used to its reserved depth
+    for i, what in enumerate(['print("hi")', "NoInit()", 'Error("x")', "[1].push(2)", '"a".len()', "clock()", "[3, 1].iter()", "Obj0()"]):
+        for reps in (1, 3, 40):
+            src = (HEADER + "class NoInit { }\nfn deep(a, b, c) { return [a, b, c].len(); }\nfn g() {\n" + f"  launch {what};\n" * reps +
+                   "  return deep([1, 2, 3], [4, 5], (6, [7, [8, [9]]]));\n}\nlet r = g();\nprint(\"result\", r);\nprint(\"after\");")
+            exp_out = (["hi"] * reps if what.startswith("print") else []) + ["result 3", "after"]
+            out.append((f"launchnow:{i}:{reps}", src, {"stdout": exp_out, "status": "ok"}))
     # ---- str() that returns something else than a string, raises, or recurses, at every place that calls it
     SPRE = ('class A { str() { return 5; } }\nclass B { str() { return nil; } }\nclass C { str() { return [1]; } }\n'
             'class D { str() { raise Error("in str"); } }\nclass S { init() { self.me = self; } str() { return "${self.me}"; } }\n')
